@@ -18,6 +18,7 @@ pub mod c15;
 pub mod c16;
 pub mod c17;
 pub mod c18;
+pub mod c19;
 pub mod c20;
 pub mod pairs;
 pub mod util;
@@ -44,6 +45,7 @@ pub fn run(ctx: &Ctx) -> PropResult {
         "C16" => c16::run(ctx),
         "C17" => c17::run(ctx),
         "C18" => c18::run(ctx),
+        "C19" => c19::run(ctx),
         "C20" => c20::run(ctx),
         other => Err(format!("no monitor for {}", other)),
     }
